@@ -272,7 +272,7 @@ def one_run(ctx, schema, doc, src, variables, value_fn, ref, ref_noprop, noprop,
             p_iter=0.35, tof=False):
     case = {**base_case, "schedule_seed": seed, "p_async": p_async, "policy": policy, "early": early}
     run, sched, hz, obs = run_incremental(schema, doc, variables, value_fn, seed, p_async=p_async, policy=policy, early=early, p_iter=p_iter,
-                                          source_burst=[1, 1, 1, 3, 8][seed % 5], tof=tof)
+                                          source_burst=[1, 1, 1, 3, 8][seed % 5], tof=tof, p_double=[0.0, 0.0, 0.35, 0.7][((seed * 2654435761) >> 7) % 4])
     try:
         run.quiesce()
         ctx.count("runs")
